@@ -28,7 +28,6 @@ import (
 	"fmt"
 	"os"
 	"path/filepath"
-	"sort"
 	"strconv"
 	"strings"
 	"time"
@@ -183,10 +182,10 @@ func (l *c19Logger) Fatal(msg string, args ...interface{}) {
 
 type c19Queue struct{}
 
-func (c19Queue) Add(item interface{})                          {}
-func (c19Queue) AddAfter(item interface{}, d time.Duration)    {}
-func (c19Queue) Remove(item interface{})                       {}
-func (c19Queue) Start(context.Context) error                   { return nil }
+func (c19Queue) Add(item interface{})                       {}
+func (c19Queue) AddAfter(item interface{}, d time.Duration) {}
+func (c19Queue) Remove(item interface{})                    {}
+func (c19Queue) Start(context.Context) error                { return nil }
 
 func c19Service(name string, ann map[string]string) (*api.Service, *api.Endpoints) {
 	svc := &api.Service{
@@ -245,6 +244,11 @@ func c19Run(sc *c19Scenario) (res c19Result, err error) {
 	var tmp string
 	iopt := haproxy.InstanceOptions{}
 	if render {
+		if !c19Measuring {
+			if err = c19Baseline(); err != nil {
+				return res, err
+			}
+		}
 		tmp, err = os.MkdirTemp("", "c19cfg")
 		if err != nil {
 			return res, err
@@ -254,15 +258,15 @@ func c19Run(sc *c19Scenario) (res c19Result, err error) {
 			os.MkdirAll(filepath.Join(tmp, d), 0o755)
 		}
 		iopt = haproxy.InstanceOptions{
-			RootFSPrefix:   "/repo/rootfs",
-			LocalFSPrefix:  tmp,
-			HAProxyCfgDir:  filepath.Join(tmp, "etc"),
-			HAProxyMapsDir: filepath.Join(tmp, "maps"),
-			IsExternal:     true,
-			MasterSocket:   filepath.Join(tmp, "var", "master.sock"),
-			AdminSocket:    filepath.Join(tmp, "var", "admin.sock"),
-			Metrics:        c19Metrics{},
-			ReloadQueue:    c19Queue{},
+			RootFSPrefix:    "/repo/rootfs",
+			LocalFSPrefix:   tmp,
+			HAProxyCfgDir:   filepath.Join(tmp, "etc"),
+			HAProxyMapsDir:  filepath.Join(tmp, "maps"),
+			IsExternal:      true,
+			MasterSocket:    filepath.Join(tmp, "var", "master.sock"),
+			AdminSocket:     filepath.Join(tmp, "var", "admin.sock"),
+			Metrics:         c19Metrics{},
+			ReloadQueue:     c19Queue{},
 			SortEndpointsBy: "endpoint",
 		}
 	}
@@ -417,14 +421,7 @@ func c19Run(sc *c19Scenario) (res c19Result, err error) {
 		if err != nil {
 			return res, err
 		}
-		if os.Getenv("C19_DUMP") != "" {
-			fmt.Fprintf(os.Stderr, "%s\n", data)
-		}
-		want := res.lines
-		if sc.kind == "cfg0" {
-			want = nil
-		}
-		lines, err := c19Rendered(string(data), want)
+		lines, err := c19Rendered(string(data), c19Measuring)
 		if err != nil {
 			return res, err
 		}
@@ -434,12 +431,11 @@ func c19Run(sc *c19Scenario) (res c19Result, err error) {
 }
 
 // c19Rendered reads the snippet back from the generated configuration: the lines of section
-// `backend default_echo_8080` that precede the end marker and follow the last line the
-// template itself writes before the snippet block. The template prefixes four blanks.
-// `want` is only used to know how many lines to expect when locating the start (the block
-// is delimited from below by the marker; from above we take exactly the lines that are
-// not produced by the same scenario rendered WITHOUT any snippet, see c19Baseline).
-func c19Rendered(cfg string, want []string) ([]string, error) {
+// `backend default_echo_8080` that precede the end marker (a global config-proxy line, which
+// the template writes right after the snippet) and follow the lines the template itself
+// writes at the top of the section. That number is measured once by rendering the same
+// scenario without any snippet (c19Baseline). The template prefixes four blanks.
+func c19Rendered(cfg string, measure bool) ([]string, error) {
 	all := strings.Split(cfg, "\n")
 	start := -1
 	for i, l := range all {
@@ -465,8 +461,7 @@ func c19Rendered(cfg string, want []string) ([]string, error) {
 		return nil, fmt.Errorf("end marker missing in backend section")
 	}
 	sect := all[start+1 : end]
-	if want == nil {
-		// baseline measurement
+	if measure {
 		c19BaselineLen = len(sect)
 		return nil, nil
 	}
@@ -487,6 +482,20 @@ func c19Rendered(cfg string, want []string) ([]string, error) {
 // number of lines the template writes in the backend section before the snippet block
 // (measured once on a snippet-free scenario)
 var c19BaselineLen = -1
+var c19Measuring bool
+
+func c19Baseline() error {
+	if c19BaselineLen >= 0 {
+		return nil
+	}
+	c19Measuring = true
+	defer func() { c19Measuring = false }()
+	_, err := c19Run(&c19Scenario{kind: "cfg1"})
+	if err == nil && c19BaselineLen < 0 {
+		err = fmt.Errorf("baseline not measured")
+	}
+	return err
+}
 
 type c19Metrics struct{}
 
@@ -525,6 +534,9 @@ func c19case(c *ctx, sc *c19Scenario) {
 		out = c19list(res.lines) + ";" + res.why
 	}()
 	c.emit("C19", sc.args(), out)
+	if strings.HasSuffix(out, "@g") {
+		c.stat("global_source_filtered", 1)
+	}
 	c.stat("kind_"+sc.kind, 1)
 	if len(sc.anns) == 0 {
 		c.stat("source_global", 1)
@@ -546,16 +558,228 @@ func c19case(c *ctx, sc *c19Scenario) {
 	}
 }
 
+// ---------------------------------------------------------------- generators
+
+// labels each kind can carry, in the order the converter registers them
+var c19Labels = map[string][]string{
+	"ra1":   {"s1"},
+	"ra2":   {"s1", "s2"},
+	"sync1": {"s", "i1", "p1"},
+	"sync2": {"s", "i1", "p1", "i2", "p2"},
+	"tcp1":  {"s", "i1", "p1"},
+	"cfg1":  {"s", "i1", "p1"},
+	"cfg2":  {"s", "i1", "p1", "i2", "p2"},
+}
+
+// c19Flag passes a --disable-config-keywords value through the real parser of the flag
+// (pkg/controller/config/config.go: utils.Split(opt.DisableConfigKeywords, ","))
+func c19Flag(flag string) []string { return utils.Split(flag, ",") }
+
+func c19Strings(alpha []byte, maxLen int, f func(string)) {
+	var rec func(prefix []byte)
+	rec = func(prefix []byte) {
+		f(string(prefix))
+		if len(prefix) == maxLen {
+			return
+		}
+		for _, b := range alpha {
+			rec(append(prefix, b))
+		}
+	}
+	rec(make([]byte, 0, maxLen))
+}
+
+var c19Blanks = []string{"", " ", "\t", "  ", " \t", "\r", "\v", "\f", "\t\t ", " \r\v\f\t ", " ", "\xa0", "\x85", " ", "\x00", "\\"}
+var c19Words = []string{"acl", "http-request", "server", "use-server", "option", "timeout", "k", "kx", "x", "xk", "*",
+	"ACL", "Acl", "aCL", "Http-Request", "acl2", "aacl", "acl-x", "http-request-x", "http", "request", "\"acl\"", "'acl'", "a\\cl",
+	"acl\x00", "#acl", "#", "ac", "l", "é", "ácl"}
+var c19Args = []string{"", " x", " is_x path_beg /x", "\tdeny", " set-header X-K k", "  acl", " k", "\tk\t", " # acl", "\r", " \r"}
+var c19FlagPool = []string{"", "acl", "k", "kx", "*", "acl,http-request", "http-request,acl", "server,use-server", " acl , k ",
+	"acl,,k", ",", ",acl", "acl,", "*,acl", "acl,*", "ACL", "Acl,acl", "k,kx", "kx,k", "x", "option,timeout,acl,k", "\tacl\t",
+	" acl", "http-request set-header", "#", "\"acl\"", "é", "acl,acl"}
+
+func c19Line(r *gen.Rng) string {
+	switch r.Intn(12) {
+	case 0:
+		return ""
+	case 1:
+		return gen.Pick(r, c19Blanks)
+	}
+	return gen.Pick(r, c19Blanks) + gen.Pick(r, c19Words) + gen.Pick(r, c19Args)
+}
+
+func c19Snippet(r *gen.Rng) string {
+	switch r.Intn(16) {
+	case 0:
+		return ""
+	case 1:
+		return gen.Pick(r, []string{"\n", "\n\n", " ", "\t\n", "\r\n"})
+	}
+	n := r.Range(1, 5)
+	sep := "\n"
+	if r.Chance(1, 8) {
+		sep = "\r\n"
+	}
+	var b strings.Builder
+	if r.Chance(1, 8) {
+		b.WriteString(gen.Pick(r, []string{"\n", "\n\n", "\r\n"}))
+	}
+	for i := 0; i < n; i++ {
+		if i > 0 {
+			b.WriteString(sep)
+			if r.Chance(1, 10) {
+				b.WriteString("\n")
+			}
+		}
+		b.WriteString(c19Line(r))
+	}
+	if r.Chance(1, 3) {
+		b.WriteString(gen.Pick(r, []string{"\n", "\n\n", "\r\n", "\n \n", "\n\t"}))
+	}
+	return b.String()
+}
+
+func c19Random(r *gen.Rng, kind string) *c19Scenario {
+	sc := &c19Scenario{kind: kind, kws: c19Flag(gen.Pick(r, c19FlagPool))}
+	if r.Chance(1, 6) {
+		// keyword list made of tokens of the texts below is likelier to hit: add some
+		sc.kws = append(sc.kws, gen.Pick(r, c19Words))
+	}
+	switch r.Intn(4) {
+	case 0:
+	default:
+		sc.hasGlob, sc.glob = true, c19Snippet(r)
+	}
+	pool := []string{c19Snippet(r), c19Snippet(r)}
+	for _, l := range c19Labels[kind] {
+		if r.Chance(2, 5) {
+			t := gen.Pick(r, pool)
+			if r.Chance(1, 3) {
+				t = c19Snippet(r)
+			}
+			sc.anns = append(sc.anns, c19Ann{l, t})
+		}
+	}
+	return sc
+}
+
 func runC19(c *ctx) {
-	_ = sort.Strings
-	_ = gen.New
-	for _, kind := range []string{"ra1", "ra2", "sync1", "sync2", "tcp1", "cfg1"} {
-		c19case(c, &c19Scenario{kind: kind, kws: []string{"k"}, hasGlob: true, glob: "x 1\nk 2"})
-		c19case(c, &c19Scenario{kind: kind, kws: []string{"k"}, hasGlob: true, glob: "x 1\n y 2\n\n"})
-		c19case(c, &c19Scenario{kind: kind, kws: []string{"k"}, hasGlob: true, glob: "x 1", anns: []c19Ann{{"s", " k"}}})
-		c19case(c, &c19Scenario{kind: kind, kws: []string{"k"}, hasGlob: true, glob: "x 1", anns: []c19Ann{{"i1", " k"}}})
-		c19case(c, &c19Scenario{kind: kind, kws: []string{"*"}, hasGlob: true, glob: "x 1", anns: []c19Ann{{"p1", " k"}}})
-		c19case(c, &c19Scenario{kind: kind, kws: []string{"z"}, hasGlob: true, glob: "x 1", anns: []c19Ann{{"i2", " k\n\tz"}}})
-		c19case(c, &c19Scenario{kind: kind, kws: []string{"z"}, hasGlob: true, glob: "x 1", anns: []c19Ann{{"s1", "a"},{"s2", " k\n\tz"}}})
+	// ---- corpus: minimised cases first
+	corpus := []string{
+		// the confirmed finding: a global ConfigMap snippet is filtered (TestCustomConfig pins it)
+		"ra1 h6b h6b -",
+		"sync1 h61636c h61636c20785f7061746820706174685f626567202f78 -",
+		"sync1 h2a h78 -",
+		"cfg1 h6b h6b -",
+		// annotation sources: blocked / star / clean / prefix / mixed case
+		"sync1 h6b n s:h20096b2031",
+		"sync1 h6b n i1:h780a0d0b0c6b",
+		"sync1 h2a h78 p1:h78",
+		"sync1 h6b n i1:h6b78",
+		"sync1 h6b n i1:h4b",
+		"sync2 h6b h78 i2:h6b",
+		"sync2 h6b n s:h78,i1:h6b,i2:h6b",
+		"tcp1 h6b n i1:h096b",
+		"ra2 h6b n s1:h78,s2:h6b",
+		"ra2 h6b n s2:h6b",
+		"cfg2 h6b h78 i1:h780a0a79,i2:h6b",
+		"cfg1 h6b,h h0d6b -",
+		"ra1 h,h6b h0a s1:h0a",
+	}
+	for _, l := range corpus {
+		sc, err := c19Parse(strings.Fields(l))
+		if err != nil {
+			panic(err)
+		}
+		c19case(c, sc)
+	}
+
+	// ---- exhaustive small scope through ReadAnnotations: every text over the alphabet up to
+	// maxLen, as the only annotation and as the global value, against six keyword lists
+	alpha := []byte{' ', '\t', '\n', '\r', '\v', '\f', 'k', 'x'}
+	maxLen := 5
+	if c.thorough() {
+		maxLen = 6
+	}
+	kwsets := [][]string{{"k"}, {"kx", "k"}, {"kx"}, {"*"}, {"", "x", "k"}, nil}
+	c19Strings(alpha, maxLen, func(t string) {
+		ks := kwsets
+		if len(t) > 5 {
+			ks = kwsets[:2] // length 6 (thorough): the two lists that tell `k` from `kx`
+		} else if len(t) > 4 && !c.thorough() {
+			ks = kwsets[:3]
+		}
+		for _, kws := range ks {
+			c19case(c, &c19Scenario{kind: "ra1", kws: kws, hasGlob: true, glob: "x", anns: []c19Ann{{"s1", t}}})
+			c19case(c, &c19Scenario{kind: "ra1", kws: kws, hasGlob: true, glob: t})
+		}
+	})
+	c.stat("exhaustive_alpha8_len", maxLen)
+	// two lines of up to 4 symbols from {space, tab, k, x} each, and (thorough) longer texts over
+	// {space, tab, newline, k, x}
+	small := []byte{' ', '\t', 'k', 'x'}
+	var lines []string
+	lmax := 3
+	if c.thorough() {
+		lmax = 4
+	}
+	c19Strings(small, lmax, func(t string) { lines = append(lines, t) })
+	for _, l1 := range lines {
+		for _, l2 := range lines {
+			c19case(c, &c19Scenario{kind: "ra1", kws: []string{"k"}, anns: []c19Ann{{"s1", l1 + "\n" + l2}}})
+		}
+	}
+	c.stat("exhaustive_two_lines_len", lmax)
+	if c.thorough() {
+		c19Strings([]byte{' ', '\t', '\n', 'k', 'x'}, 7, func(t string) {
+			if len(t) > 5 {
+				c19case(c, &c19Scenario{kind: "ra1", kws: []string{"k"}, anns: []c19Ann{{"s1", t}}})
+			}
+		})
+	}
+
+	// ---- exhaustive merging: every subset of the five sources of sync2 (service, two ingresses,
+	// two IngressClass parameter maps) x {clean, dirty} per source x global {absent, clean, dirty}
+	texts := []string{"x 1", "\tk 1"}
+	for mask := 0; mask < 1<<5; mask++ {
+		lbls := c19Labels["sync2"]
+		n := 0
+		for i := range lbls {
+			if mask&(1<<i) != 0 {
+				n++
+			}
+		}
+		for tv := 0; tv < 1<<n; tv++ {
+			for g := 0; g < 3; g++ {
+				sc := &c19Scenario{kind: "sync2", kws: []string{"k"}}
+				if g > 0 {
+					sc.hasGlob, sc.glob = true, texts[g-1]
+				}
+				j := 0
+				for i, l := range lbls {
+					if mask&(1<<i) != 0 {
+						sc.anns = append(sc.anns, c19Ann{l, texts[(tv>>j)&1]})
+						j++
+					}
+				}
+				c19case(c, sc)
+			}
+		}
+	}
+	c.stat("exhaustive_merge_sync2", 1)
+
+	// ---- random multi-line snippets through every entry point
+	r := gen.New(c.seed)
+	n, ncfg := 12000, 600
+	if c.thorough() {
+		n, ncfg = 150000, 4000
+	}
+	kinds := []string{"ra1", "ra2", "sync1", "sync2", "sync2", "tcp1"}
+	for i := 0; i < n; i++ {
+		c19case(c, c19Random(r, gen.Pick(r, kinds)))
+	}
+	for i := 0; i < ncfg; i++ {
+		sc := c19Random(r, gen.Pick(r, []string{"cfg1", "cfg2"}))
+		c19case(c, sc)
 	}
 }
